@@ -344,7 +344,16 @@ func genWalkCases(rng *hutil.Rng, tier string) []*WalkCase {
 	mkTree := func(rels []string) []WEntry {
 		seen := map[string]bool{}
 		var es []WEntry
+		isDir := map[string]bool{}
 		for _, r := range rels {
+			for d := filepath.Dir(r); d != "."; d = filepath.Dir(d) {
+				isDir[d] = true
+			}
+		}
+		for _, r := range rels {
+			if isDir[r] { // a.rego is a directory in this tree (a.rego/b.rego): it cannot be a file too
+				continue
+			}
 			d := filepath.Dir(r)
 			for d != "." && !seen[d] {
 				seen[d] = true
@@ -563,7 +572,8 @@ func walkEnvFor(work string) walkEnv {
 }
 
 // runWalkCases: cases that change the working directory of this process first, one after the other; then the rest
-func runWalkCases(o *opa, env walkEnv, cases []*WalkCase) {
+// side by side.  The returned function waits for them.
+func startWalkCases(o *opa, env walkEnv, cases []*WalkCase) (wait func()) {
 	cwd, _ := os.Getwd()
 	for i, c := range cases {
 		if c.RelArg && c.Mode != "cli" {
@@ -572,27 +582,42 @@ func runWalkCases(o *opa, env walkEnv, cases []*WalkCase) {
 	}
 	must(os.Chdir(cwd))
 	var wg sync.WaitGroup
-	sem := make(chan struct{}, runtime.NumCPU())
-	for i, c := range cases {
-		if c.RelArg && c.Mode != "cli" {
-			continue
+	wg.Add(1)
+	go func() {
+		defer wg.Done()
+		var inner sync.WaitGroup
+		sem := make(chan struct{}, runtime.NumCPU())
+		for i, c := range cases {
+			if c.RelArg && c.Mode != "cli" {
+				continue
+			}
+			inner.Add(1)
+			sem <- struct{}{}
+			go func(i int, c *WalkCase) {
+				defer inner.Done()
+				defer func() { <-sem }()
+				runWalk(o, env, c, i)
+			}(i, c)
 		}
-		wg.Add(1)
-		sem <- struct{}{}
-		go func(i int, c *WalkCase) {
-			defer wg.Done()
-			defer func() { <-sem }()
-			runWalk(o, env, c, i)
-		}(i, c)
-	}
-	wg.Wait()
+		inner.Wait()
+	}()
+	return wg.Wait
 }
 
-func walkCases(out *hutil.Out, o *opa, rng *hutil.Rng, tier, work string) {
+func runWalkCases(o *opa, env walkEnv, cases []*WalkCase) {
+	startWalkCases(o, env, cases)()
+}
+
+// walkCases starts the layer; the absolute-argument and binary cases go on while the caller does other work (they do
+// not depend on the working directory of this process).  finish waits and writes the observations.
+func walkCases(out *hutil.Out, o *opa, rng *hutil.Rng, tier, work string) (finish func()) {
 	env := walkEnvFor(work)
 	cases := genWalkCases(rng, tier)
-	runWalkCases(o, env, cases)
-	for _, c := range cases {
-		out.Emit(c)
+	wait := startWalkCases(o, env, cases)
+	return func() {
+		wait()
+		for _, c := range cases {
+			out.Emit(c)
+		}
 	}
 }
